@@ -18,6 +18,9 @@ CHECKS['C04'] = dict(tech='MIR symbolic execution (mirsym) of CommitQC/TimeoutQC
 CHECKS['C10'] = dict(tech='MIR symbolic execution (mirsym) sweep of every ProtoFmt::read body and of the pre-verification view extraction + z3; Kani/CBMC for the std_conv converters and the mux header codec',
     text='bounded (nesting depth <= 3, repeated fields <= 2): no panic / failed assert / unreachable reachable in any of the 50 message decoders on any symbolic proto struct, nor in view extraction on messages with arbitrary u64 numbers; converters of timestamps, durations, socket addresses, bit vectors decided bit-precisely by Kani over all field values',
     note='trusted: ByteFmt::decode of keys/signatures/hashes returns arbitrary Ok/Err; prost/quick-protobuf wire parsing, snow, tokio are outside; multi-frame sequences are outside', ref='4/C10')
+CHECKS['C16'] = dict(tech='MIR symbolic execution (mirsym) of prunable_mpsc Sender::send / Receiver::recv instantiated with the real bft filter and selection functions + z3; counterexamples replayed through the real channel',
+    text='bounded (<= 2 / 3 pending requests, all four message kinds): one send step from an arbitrary buffer satisfying one-per-(sender,kind) re-establishes the invariant, drops an entry only for an invalid signature or a same-class request of equal-or-higher view, keeps the maximum view per class and the arrival order; recv returns the front; all sender identities, views and signature validities covered symbolically',
+    note='trusted: watch channel modelled as a cell (one send = one critical section), ideal signatures; concurrent senders and the replica-internal vote caches are outside this check', ref='4/C16')
 NA = {
  'C01': 'agreement quantifies over all multi-node schedules x Byzantine behaviours x crash points of the async replica system; no bounded solver encoding of the real replicas is within reach (its local obligations are decided under C02, C03, C04, C05, C07, C11)',
  'C06': 'liveness over fair infinite suffixes from adversarially reached states; not expressible as a bounded symbolic-execution query',
